@@ -46,15 +46,15 @@ pub struct FfowState {
 
 pub fn ffow_state() -> impl Strategy<Value = FfowState> {
     (
-        (any::<u8>(), text(ANY, 60), text(ANY, 30), text(ANY, 20), text(ANY, 20), text(ANY, 80), text(ANY, 16)),
-        (any::<[u8; 2]>(), any::<u8>(), any::<u8>()),
+        (crate::util::num::<u8>(), text(ANY, 60), text(ANY, 30), text(ANY, 20), text(ANY, 20), text(ANY, 80), text(ANY, 16)),
+        (any::<[u8; 2]>(), crate::util::num::<u8>(), crate::util::num::<u8>()),
         (
             prop::sample::select(vec![b'd', b'l', b'p', b'D', b'L', b'P']),
             prop::sample::select(vec![b'l', b'w', b'm', b'o', b'L', b'W']),
             0u8 ..= 1,
             0u8 ..= 1,
         ),
-        (any::<u8>(), any::<u8>(), any::<u8>(), any::<u16>()),
+        (crate::util::num::<u8>(), crate::util::num::<u8>(), crate::util::num::<u8>(), crate::util::num::<u16>()),
         prop::collection::vec(any::<[u8; 4]>(), 0..3),
         prop::sample::select(vec![0x49u8, 0x46, 0x00, 0x6D]),
     )
@@ -190,8 +190,8 @@ pub struct Savage2State {
 pub fn savage2_state() -> impl Strategy<Value = Savage2State> {
     (
         any::<[u8; 12]>(),
-        (text(ANY, 60), any::<u8>(), any::<u8>(), text(ANY, 12), text(ANY, 24), text(ANY, 24), text(ANY, 16)),
-        (any::<u8>(), text(ANY, 16), text(ANY, 12), any::<u8>()),
+        (text(ANY, 60), crate::util::num::<u8>(), crate::util::num::<u8>(), text(ANY, 12), text(ANY, 24), text(ANY, 24), text(ANY, 16)),
+        (crate::util::num::<u8>(), text(ANY, 16), text(ANY, 12), crate::util::num::<u8>()),
     )
         .prop_map(|(header, (name, online, max, time, map, next_map, location), (min, mode, version, level))| {
             Savage2State {
@@ -268,9 +268,9 @@ pub fn jc2m_state() -> impl Strategy<Value = Jc2mState> {
     (
         crate::models::gamespy::gs3_challenge(),
         (text(ANY, 40), text(ANY, 12), text(ANY, 60), prop::sample::select(vec!["0", "1", "true", "false", "True"]).prop_map(|s| s.to_string())),
-        (any::<u32>(), prop::option::of(prop_oneof![0u32..200, any::<u32>()])),
+        (crate::util::num::<u32>(), prop::option::of(prop_oneof![0u32..200, crate::util::num::<u32>()])),
         prop::collection::vec(("[a-z]{3,9}", text(ANY, 16)), 0..6),
-        prop_oneof![3 => prop::collection::vec((text(ANY, 14), "[0-9]{17}", any::<u16>()), 0..4), 2 => prop::collection::vec((text(ANY, 10), "[0-9]{17}", any::<u16>()), 4..101)],
+        prop_oneof![3 => prop::collection::vec((text(ANY, 14), "[0-9]{17}", crate::util::num::<u16>()), 0..4), 2 => prop::collection::vec((text(ANY, 10), "[0-9]{17}", crate::util::num::<u16>()), 4..101)],
         (any::<prop::sample::Index>(), any::<[u8; 2]>()),
     )
         .prop_map(|(challenge, (hostname, version, description, password), (maxplayers, numplayers), extras, players, (rot, filler))| {
@@ -388,8 +388,8 @@ fn lp_text(max_chars: usize) -> impl Strategy<Value = String> {
 
 pub fn mindustry_state() -> impl Strategy<Value = MindustryState> {
     (
-        (lp_text(40), lp_text(30), any::<i32>(), any::<i32>(), any::<i32>()),
-        (lp_text(12), 0u8 ..= 4, any::<i32>(), lp_text(60), prop::option::of(lp_text(16))),
+        (lp_text(40), lp_text(30), crate::util::num::<i32>(), crate::util::num::<i32>(), crate::util::num::<i32>()),
+        (lp_text(12), 0u8 ..= 4, crate::util::num::<i32>(), lp_text(60), prop::option::of(lp_text(16))),
     )
         .prop_map(|((host, map, players, wave, version), (version_type, mode, limit, description, mode_name))| {
             let mut st = MindustryState {
